@@ -592,9 +592,10 @@ fn compute_fold<'query, AdapterT: Adapter<'query> + 'query>(
 
         context.folded_contexts.insert_or_error(fold_eid, fold_elements).unwrap();
 
-        // Remove no-longer-needed imported tags.
+        // Remove no-longer-needed imported tags. A tag that is used more than once inside
+        // the fold is listed more than once, so it may already have been removed.
         for imported_tag in &moved_fold.imported_tags {
-            context.imported_tags.remove(imported_tag).unwrap();
+            context.imported_tags.remove(imported_tag);
         }
 
         Some(context)
